@@ -142,9 +142,11 @@ class SplittingStage(Contract):
 
     def setup(self, ex, state, inst):
         m0 = ex.ctx.mark0
-        t = mk_tt(state, 'tmp', m0)
+        from vt.e1.sle_contracts import tag_tt, tag_list, ROLES_SOL
+        t = tag_tt(mk_tt(state, 'tmp', m0), ROLES_SOL)
         d = zi(t.order)
-        K = SList(fresh('K_ref'), d, fn=sym_elem_fn('optarr2', state), kind='optarr2')
+        # a propagator maps the physical index of the state: (row, column) of an operator
+        K = tag_list(SList(fresh('K_ref'), d, fn=sym_elem_fn('optarr2', state), kind='optarr2'), ('r', 'c'))
         idx = SArr([fresh('nidx')], False, fresh('idx_buf'), True, kind='int')
         idx.arange = (z3.IntVal(inst['start']), d, 2)
         state.assume(idx.shape[0] == z3.If(d > inst['start'], (d - inst['start'] + 1) / 2, 0))
